@@ -173,6 +173,14 @@ def execute(case):
     pristine = {}
     for kind, t in sorted(need):
         pristine[(kind, t)] = obj_digest(construct(kind, t))
+    # pristine reference of every fixture that a later load_check will compare against
+    names = files.fixture_names()
+    pristine_file = {}
+    for op in case["ops"]:
+        if op["k"] in ("load_check", "failed_load"):
+            n = names[op.get("t", 0) % len(names)]
+            if n not in pristine_file:
+                pristine_file[n] = obj_digest(load_bytes(files.fixture_bytes(n)))
 
     actors = []  # dict(obj, how, snap, bytes, writer)
     seq = []
@@ -325,6 +333,37 @@ def execute(case):
                 check_others(None, i, "construct")
                 probes["fresh_construction_checked"] = probes.get("fresh_construction_checked", 0) + 1
                 log.append((i, "construct_check", kind, type_of(obj)))
+            elif k == "failed_load":
+                # some actor's load is hit by an I/O fault half way: nothing anybody holds may change
+                n = names[op.get("t", 0) % len(names)]
+                data = files.fixture_bytes(n)
+                fault = dict(op.get("fault", {"kind": "read_eio", "at": 5}), stream=op.get("fault", {}).get("stream", 0))
+                ctx = Ctx([fault])
+                outcome = "ok"
+                with active(ctx):
+                    try:
+                        read_sunvox_file(ctx.new_stream(data, "arg"))
+                    except (KeyboardInterrupt, HarnessTimeout):
+                        raise
+                    except BaseException as e:
+                        outcome = type(e).__name__
+                env.LOG.take()
+                if ctx.fired:
+                    fired["load_fault:" + fault["kind"]] = fired.get("load_fault:" + fault["kind"], 0) + 1
+                check_others(None, i, "failed_load")
+                log.append((i, "failed_load", n, outcome))
+            elif k == "load_check":
+                # a clean load of a fixture must give what it gave in the pristine process state
+                n = names[op.get("t", 0) % len(names)]
+                snap, b = obj_digest(load_bytes(files.fixture_bytes(n)))
+                ref = pristine_file[n]
+                d = snapshot.diff(ref[0], snap, limit=5)
+                if d or b != ref[1]:
+                    path = snapshot.path_class(d[0][0]) if d else "bytes"
+                    violations.append(_v("later_load_equals_pristine_load", path=path, detail={"op": i, "file": n, "diff": [(list(p_), snapshot.short(x), snapshot.short(y)) for p_, x, y in d[:3]]}))
+                check_others(None, i, "load_check")
+                probes["later_load_checked"] = probes.get("later_load_checked", 0) + 1
+                log.append((i, "load_check", n, b))
             elif k == "drop":
                 # an actor lets go of its object: nothing the others hold may change
                 if len(actors) > 1:
@@ -401,8 +440,16 @@ def generate(seed, i, tier="quick"):
             ops.append({"k": "writer_step", "a": a, "n": r.randrange(40)})
         elif x < 0.93:
             ops.append({"k": "construct_check", "kind": focus_kind if r.random() < 0.7 else r.choice(KINDS), "t": focus_t if r.random() < 0.7 else r.randrange(1000)})
-        elif x < 0.97:
+        elif x < 0.955:
             ops.append(obtain(False))
+        elif x < 0.975:
+            kind = r.choice(["read_eio", "read_cancel", "read_nomem", "read_short", "seek_err", "tell_err", "trunc", "flip"])
+            f = {"kind": kind, "at": r.choice([0, 1, 3, 10, 40, r.randrange(400)]), "stream": r.choice([0, 0, 1])}
+            if kind == "flip":
+                f["xor"] = r.randrange(1, 256)
+            ops.append({"k": "failed_load", "t": focus_t if r.random() < 0.5 else r.randrange(1000), "fault": f})
+        elif x < 0.99:
+            ops.append({"k": "load_check", "t": focus_t if r.random() < 0.5 else r.randrange(1000)})
         else:
             ops.append({"k": "drop", "a": a})
     ops.append({"k": "construct_check", "kind": focus_kind, "t": focus_t})
@@ -414,6 +461,12 @@ def plan(tier, seed):
     per = 50
     units = [{"kind": "seeded", "seed": seed, "first": i, "count": min(per, n - i), "tier": tier} for i in range(0, n, per)]
     units.insert(0, {"kind": "types"})
+    # a load that fails at (a spread of) every read index, then clean loads of the same and of
+    # another file: a failed load must leave nothing behind that a later load can see
+    nfix = len(files.fixture_names())
+    step = 4 if tier == "quick" else 1
+    for t in range(0, nfix, 6):
+        units.append({"kind": "failed_loads", "first": t, "count": 6, "step": step})
     return units
 
 
@@ -438,8 +491,35 @@ def type_sweep_cases():
             yield ops
 
 
+def failed_load_cases(t, step):
+    from . import c18
+
+    spec = {"src": "fixture", "name": files.fixture_names()[t]}
+    per, sizes, datas, _ = c18.profile(spec, "file")
+    nreads = len(per.get(0, {}).get("read", ()))
+    ops = [{"k": "obtain", "how": "loadfile", "t": t}]
+    for at in range(0, nreads, step):
+        kind = ("read_eio", "read_cancel", "read_short", "read_nomem")[(at // step) % 4]
+        ops.append({"k": "failed_load", "t": t, "fault": {"kind": kind, "at": at, "stream": 0}})
+        ops.append({"k": "load_check", "t": t})
+        if (at // step) % 5 == 0:
+            ops.append({"k": "load_check", "t": t + 1})
+        if len(ops) > 60:
+            yield ops
+            ops = [{"k": "obtain", "how": "loadfile", "t": t}]
+    if len(ops) > 1:
+        yield ops
+
+
 def run_unit(unit):
     acc = Acc()
+    if unit["kind"] == "failed_loads":
+        nfix = len(files.fixture_names())
+        for t in range(unit["first"], min(nfix, unit["first"] + unit["count"])):
+            for ops in failed_load_cases(t, unit["step"]):
+                acc.run(execute, {"property": PROPERTY, "world": "actors", "layout": 2, "ops": ops}, isolate=True, seconds=120)
+        acc.probes["failed_load_sweep_units"] += 1
+        return acc.to_dict()
     if unit["kind"] == "types":
         for ops in type_sweep_cases():
             acc.run(execute, {"property": PROPERTY, "world": "actors", "layout": 2, "ops": ops}, isolate=True, seconds=120)
